@@ -11,7 +11,14 @@ RULE = ('strict parses: all strings up to length 6 (8) over {$, a, {, }, space, 
         'math node or a mode-changing argument / environment.')
 EXHAUSTIVE = {'quick': True, 'thorough': True}
 ASSUMPTIONS = ['model of the parser stack validated only by this correspondence']
-PARTIAL = []
+PARTIAL = ['C10_dollars_closing_first_partial, C10_dollars_read_math_partial, C10_dollars_token_partial: the DESIGN statement '
+           'C10_dollars (math nodes of the parse of EVERY dollar document = the document\'s formulas, unbounded) is not proved; proved '
+           'instead (a) for every input, every continuation and every reachable state: which token a $ is read as (closing inline $ '
+           'first inside $..$ even when another $ follows; $$ closes inside $$..$$; outside math $$ opens display and a single $ '
+           'inline); (b) C10_dollars_bounded / _two_letters: for ALL strings over {$,a} to length 14 and {$,a,b} to length 9, strict '
+           'and tolerant, default context, the parse agrees with an independent reading of the dollar runs (vm_compute sweep, bound '
+           'in the statement); (c) the instances $a$$b$ and $$a$$. The oracle checks the same reference on the real code for every '
+           'generated string over {$, a}.']
 REFUTED = []
 CASE_TIMEOUT = 10.0
 case_from_desc = PC.case_from_desc
